@@ -1023,7 +1023,9 @@ func parseImplementsInterfaces(parser *Parser) ([]*ast.Named, error) {
 			return nil, err
 		}
 		// optional leading ampersand
-		skip(parser, lexer.AMP)
+		if _, err := skip(parser, lexer.AMP); err != nil {
+			return nil, err
+		}
 		for {
 			ttype, err := parseNamed(parser)
 			if err != nil {
